@@ -174,6 +174,27 @@ func verifyDSWithWork(
 	return false, lastErr
 }
 
+// DSMatchedKeys returns the keys of keyMap that a supported DS of parentDSSet
+// vouches for — the only keys whose signature can authenticate the child's
+// DNSKEY RRset (RFC 4035 §5.2). Every candidate goes through the same checks
+// and the same digest work accounting as VerifyDS.
+func DSMatchedKeys(
+	keyMap map[uint16][]*dns.DNSKEY,
+	parentDSSet []dns.RR,
+	work DSDigestWork,
+) map[uint16][]*dns.DNSKEY {
+	matched := make(map[uint16][]*dns.DNSKEY)
+	for tag, bucket := range keyMap {
+		for _, key := range uniqueSortedDNSKEYs(bucket) {
+			single := map[uint16][]*dns.DNSKEY{tag: {key}}
+			if _, err := verifyDSWithWork(single, parentDSSet, work); err == nil {
+				matched[tag] = append(matched[tag], key)
+			}
+		}
+	}
+	return matched
+}
+
 type dnskeyIdentity struct {
 	name      string
 	class     uint16
